@@ -15,7 +15,7 @@ Tr == ndJsonDeserialize("trace.ndjson")
 Threads == 1..(K + 1)
 
 Consumed == \A th \in Threads : pos[th] = Len(Tr[run].ev[th])
-TInit == Init /\ run = 1 /\ pos = [th \in Threads |-> 0]
+TInit == Init /\ init = Tr[1].init /\ run = 1 /\ pos = [th \in Threads |-> 0]
 
 Match(e) ==
   CASE e.op = "top"    -> Top(Tr[run].progs[e.t])
@@ -24,7 +24,7 @@ Match(e) ==
     [] e.op = "step"   -> Step(e.t) /\ hist'[1].i = e.i /\ hist'[1].val = e.val /\ hist'[1].k = e.k /\ hist'[1].a = e.a
     [] e.op = "end"    -> EndExec(e.t) /\ hist'[1].out = e.out
     [] e.op = "commit" -> Commit(e.t)
-    [] e.op = "result" -> (TopFail \/ Exit) /\ result' = e.out
+    [] e.op = "result" -> (TopFail \/ Exit \/ (disp < K /\ TopRefuse(Tr[run].progs[disp + 1]))) /\ result' = e.out
     [] OTHER -> FALSE
 
 Consume ==
@@ -36,7 +36,7 @@ Silent == Spawn /\ UNCHANGED <<run, pos>>
 NextRun ==
   /\ Consumed /\ run < Len(Tr)
   /\ run' = run + 1 /\ pos' = [th \in Threads |-> 0]
-  /\ prog' = [t \in Tx |-> NoProg] /\ real' = [a \in Acc |-> 0] /\ disp' = 0 /\ dpc' = "top"
+  /\ prog' = [t \in Tx |-> NoProg] /\ init' = Tr[run + 1].init /\ real' = Tr[run + 1].init /\ disp' = 0 /\ dpc' = "top"
   /\ las' = [t \in Tx |-> [a \in Acc |-> NoLas]]
   /\ wlock' = [t \in Tx |-> "N"] /\ wsnap' = [t \in Tx |-> [a \in Acc |-> 0]]
   /\ wbase' = [t \in Tx |-> [a \in Acc |-> -1]]
